@@ -393,6 +393,7 @@ extern "C" int LLVMFuzzerTestOneInput(const uint8_t *data, size_t size) {
     std::string detail;
     std::string sig = vf::run_case(pd, data, size, &detail);
     vf::drv().ctx.evaluations++;
+    { static double last = 0; if ((vf::drv().ctx.evaluations & 1023) == 0) { double n = vf::now_s(); if (n - last > 3) { last = n; vf::Driver &d = vf::drv(); const uint8_t *sv = d.cur; d.cur = nullptr; vf::write_stats("running"); d.cur = sv; } } }
     if (!sig.empty() && vf::drv().ctx.is_known(sig)) { vf::drv().ctx.known_hits[sig]++; vf::drv().ctx.known_detail[sig] = detail; }
     if (!sig.empty() && !vf::drv().ctx.is_known(sig)) {
         fprintf(stderr, "VF-FAIL sig=%s detail=%s\n", sig.c_str(), detail.c_str());
